@@ -4,14 +4,19 @@
  * Closed driver around the real src/endpoints/{core,buffer,trivial}.c.  Every
  * source and sink the library talks to is owned by this file: scripted
  * octet-style and chunk-style drivers that answer each call from a finite
- * behaviour script and fall back to "transfer everything asked" when the
- * script runs out.  The stream is 01 02 03 ..., so loss, duplication and
- * reordering are visible at the other end.
+ * behaviour script over {1, 2, k = asked-1, rest, 0, EINTR, EAGAIN, hard error}
+ * and fall back to "transfer everything asked" when the script runs out.  The
+ * stream is 01 02 03 ..., so loss, duplication and reordering are visible at
+ * the other end.  "Hard error" is -EIO; sinks additionally answer -ENOMEM, the
+ * code the driver contract documents for "out of space".
  *
  * Exploration is deviation-bounded and exhaustive: all scripts with 0
  * deviations from the default answer, then all with 1, then 2, ... (so the
  * lowest-numbered failing case has the fewest deviations), for every
- * operation, driver kind, count and auxiliary-buffer geometry of the tier.
+ * operation, driver kind, count and auxiliary-buffer geometry of the tier;
+ * then 40-octet transfers under every periodic script (the structured
+ * stand-in for "random long transfers"); then the library's own buffer,
+ * chunk-list and trivial endpoints over every cut of short streams.
  *
  * The oracle is a checker over what the drivers observed (octets handed out
  * by the source, octets that reached the sink / the destination, answers
@@ -26,17 +31,25 @@
  *                   returns; what reached the sink is a prefix of the stream
  *   invalid N     : 0 or > SSIZE_MAX refused (negative) without a driver call
  *   at-most forms : never move more than asked; a non-negative return is the
- *                   count actually moved; an interruption may be passed on
- *                   only if nothing was taken from the source and dropped
+ *                   count actually moved (a short count is also fine when the
+ *                   source's end was met after some octets); an interruption
+ *                   may be passed on only if nothing was taken from the source
+ *                   and dropped
  *   drain forms   : without a scripted hard error the sink ends up with the
  *                   whole stream (return value not pinned)
  *   aux buffer    : no access outside the buffer's memory; octets in front
  *                   of `offset` untouched by the non-rewinding forms
- *   every form    : bounded number of driver calls (clause C17/hang)
+ *   every form    : bounded number of driver calls (clause C17/hang): every
+ *                   driver has a call budget, answers -EIO beyond it and jumps
+ *                   out of the library if even that does not stop the loop
  *
  * A small independent reference implementation (ref_*) is run through the same
  * checker at start-up: it has to pass, and four deliberately broken variants
  * of it have to be rejected (oracle self-test; failure = HARNESS-BROKEN).
+ * C17_IMPL=ref runs the whole enumeration on that reference instead of ufw
+ * (a development aid to look for false alarms of the oracle; the bound text
+ * says so and the run is reported VACUOUS because the library-endpoint part is
+ * skipped).
  */
 #include "mc.h"
 
@@ -984,7 +997,7 @@ emit(const struct casep *c, int d)
         return;
     bool nontrivial = false;
     const char *outcome = run_case(SUBJECT, c, &nontrivial);
-    mc_end(nontrivial, outcome);
+    mc_end(nontrivial || mc.cur_failed, outcome);
 }
 
 /* all placements of exactly d deviations over the slots of a case, each with
@@ -1044,12 +1057,13 @@ enumerate(struct casep *c, int d, int prefix, void (*leaf)(const struct casep *,
 }
 
 struct auxcfg { int off, used, size; };
-/* 0 <= offset < used < size <= 4: the octets [offset,used) and the free octets
+/* 0 <= offset < used < size <= 4 (and one of 5 octets with offset 2, so that
+ * offset and region length can be told apart): the octets [offset,used) and the free octets
  * [used,size) are both non-empty, whichever of the two an implementation
  * takes to be the region it may use.  The first `aux_deep` geometries of a
  * tier are explored to the full deviation bound, the others to one less. */
-static const struct auxcfg AUX_QUICK[] = { { 0, 2, 3 }, { 1, 3, 4 }, { 0, 1, 2 }, { 0, 1, 3 } };
-static const struct auxcfg AUX_THOROUGH[] = { { 0, 2, 3 }, { 1, 3, 4 }, { 0, 1, 2 }, { 0, 1, 3 }, { 0, 3, 4 }, { 1, 2, 3 } };
+static const struct auxcfg AUX_QUICK[] = { { 0, 2, 3 }, { 1, 3, 4 }, { 0, 1, 2 }, { 0, 1, 3 }, { 2, 4, 5 } };
+static const struct auxcfg AUX_THOROUGH[] = { { 0, 2, 3 }, { 1, 3, 4 }, { 0, 1, 2 }, { 0, 3, 4 }, { 0, 1, 3 }, { 1, 2, 3 }, { 2, 4, 5 } };
 
 struct tier {
     int one_len;        /* one-sided: script slots */
@@ -1066,8 +1080,8 @@ struct tier {
 static const size_t Q_COUNTS[] = { 0, 1, 2, 3, 6 }, Q_LENGTHS[] = { 0, 1, 3, 5 }, Q_ATMOST[] = { 1, 2 }, Q_SHORTS[] = { 2 };
 static const size_t T_COUNTS[] = { 0, 1, 2, 3, 4, 5, 6 }, T_LENGTHS[] = { 0, 1, 2, 3, 4, 5, 6 }, T_ATMOST[] = { 1, 2, 3 },
                     T_SHORTS[] = { 2, 5 };
-static const struct tier QUICK = { SLOTS_ONE, 5, 3, 3, Q_COUNTS, 5, Q_LENGTHS, 4, Q_ATMOST, 2, Q_SHORTS, 1, AUX_QUICK, 4, 2 };
-static const struct tier THOROUGH = { SLOTS_ONE, 6, 4, 4, T_COUNTS, 7, T_LENGTHS, 7, T_ATMOST, 3, T_SHORTS, 2, AUX_THOROUGH, 6, 2 };
+static const struct tier QUICK = { SLOTS_ONE, 5, 3, 3, Q_COUNTS, 5, Q_LENGTHS, 4, Q_ATMOST, 2, Q_SHORTS, 1, AUX_QUICK, 5, 2 };
+static const struct tier THOROUGH = { SLOTS_ONE, 6, 4, 4, T_COUNTS, 7, T_LENGTHS, 7, T_ATMOST, 3, T_SHORTS, 2, AUX_THOROUGH, 7, 4 };
 
 static void
 one_sided_layer(const struct tier *t, int d, void (*leaf)(const struct casep *, int))
@@ -1133,7 +1147,9 @@ two_sided_layer(const struct tier *t, int d, void (*leaf)(const struct casep *, 
             else if (op == OP_ATMOST) { ns = two; nn = 2; }
             else if (op == OP_ATMOST_AUX) { ns = t->atmost; nn = t->natmost; }
             else { ns = one; nn = 1; }
-            for (int ni = 0; ni < nn; ++ni)
+            for (int ni = 0; ni < nn; ++ni) {
+                if ((op_counted(op) || op_drain(op)) && ns[ni] == 0 && d > 1)
+                    continue; /* nothing to move: no driver call for a script to steer */
                 for (int sk = 0; sk < 2; ++sk)
                     for (int kk = 0; kk < 2; ++kk) {
                         memset(&c, 0, sizeof c);
@@ -1164,6 +1180,7 @@ two_sided_layer(const struct tier *t, int d, void (*leaf)(const struct casep *, 
                                 enumerate(&c, d, 0, leaf);
                             }
                     }
+            }
         }
     }
 }
@@ -1206,7 +1223,7 @@ static void
 long_family(int maxperiod_one, int maxperiod_two, void (*leaf)(const struct casep *, int))
 {
     struct casep c;
-    const int slots = LONG_SLOTS - LONG_SLOTS % 6; /* a multiple of every period <= 3 */
+    const int slots = LONG_SLOTS - LONG_SLOTS % 12; /* a multiple of every period <= 4 */
     /* one driver */
     for (int p = 1; p <= maxperiod_one; ++p)
         for (int op = OP_GET_CHUNK; op <= OP_PUT_CHUNK; ++op)
@@ -1215,7 +1232,7 @@ long_family(int maxperiod_one, int maxperiod_two, void (*leaf)(const struct case
                 const uint8_t *dev = get ? (kind == 0 ? DEV_OCTET_SRC : DEV_CHUNK_SRC) : (kind == 0 ? DEV_OCTET_SNK : DEV_CHUNK_SNK);
                 const int ndev = get ? (kind == 0 ? (int)sizeof DEV_OCTET_SRC : (int)sizeof DEV_CHUNK_SRC)
                                      : (kind == 0 ? (int)sizeof DEV_OCTET_SNK : (int)sizeof DEV_CHUNK_SNK);
-                int digit[3] = { 0, 0, 0 };
+                int digit[4] = { 0, 0, 0, 0 };
                 do {
                     if (!pattern_fill(long_a, digit, p, dev, ndev))
                         continue;
@@ -1239,11 +1256,11 @@ long_family(int maxperiod_one, int maxperiod_two, void (*leaf)(const struct case
                         const int nsrc = sk == 0 ? (int)sizeof DEV_OCTET_SRC : (int)sizeof DEV_CHUNK_SRC;
                         const uint8_t *dsnk = kk == 0 ? DEV_OCTET_SNK : DEV_CHUNK_SNK;
                         const int nsnk = kk == 0 ? (int)sizeof DEV_OCTET_SNK : (int)sizeof DEV_CHUNK_SNK;
-                        int da[3] = { 0, 0, 0 };
+                        int da[4] = { 0, 0, 0, 0 };
                         do {
                             if (!pattern_fill(long_a, da, p, dsrc, nsrc))
                                 continue;
-                            int db[3] = { 0, 0, 0 };
+                            int db[4] = { 0, 0, 0, 0 };
                             do {
                                 if (!pattern_fill(long_b, db, q, dsnk, nsnk))
                                     continue;
@@ -1670,7 +1687,7 @@ main(int argc, char **argv)
         one_sided_layer(t, d, emit);
         two_sided_layer(t, d, emit);
     }
-    long_family(mc_thorough() ? 3 : 2, mc_thorough() ? 2 : 1, emit);
+    long_family(mc_thorough() ? 4 : 3, mc_thorough() ? 3 : 2, emit);
     if (SUBJECT == &IMPL_UFW)
         real_endpoints(mc_thorough() ? 6 : 4);
 
@@ -1682,7 +1699,7 @@ main(int argc, char **argv)
              "40 octets under every periodic script of period <= %d (one driver) / <= %d per side (two drivers); real "
              "buffer/chunks/trivial endpoints with streams <= %d",
              SUBJECT == &IMPL_REF ? "[REFERENCE IMPLEMENTATION, not ufw] " : "", t->one_full, t->one_len, t->one_dany, t->one_len,
-             t->two_d, t->ncounts, t->nlengths, t->naux, t->naux - t->aux_deep, mc_thorough() ? 3 : 2, mc_thorough() ? 2 : 1,
+             t->two_d, t->ncounts, t->nlengths, t->naux, t->naux - t->aux_deep, mc_thorough() ? 4 : 3, mc_thorough() ? 3 : 2,
              mc_thorough() ? 6 : 4);
     mc_finish(true, bound);
     return 0;
